@@ -163,8 +163,10 @@ theorem getFile_false (gs : List (String × GroupFile)) (name : String) (k : Str
     · next f' hf => simp at h; obtain ⟨h1, h2, h3⟩ := h; subst h1; subst h2; subst h3; exact ⟨rfl, rfl, hf⟩
     · simp at h
 
+/-- without the subgroup walk `readDescription` is `getFile` plus the upgrade of the description -/
 theorem readDescription_false (gs : List (String × GroupFile)) (name : String) :
-    readDescription gs name false = getFile gs name false := by
+    readDescription gs name false =
+      (getFile gs name false).map fun o => (o.1, { o.2.1 with desc := o.2.1.desc.upgrade }, o.2.2) := by
   unfold readDescription
   cases h : getFile gs name false with
   | none => rfl
@@ -173,6 +175,12 @@ theorem readDescription_false (gs : List (String × GroupFile)) (name : String) 
     obtain ⟨_, hs, _⟩ := getFile_false gs name k f s h
     subst hs
     simp
+
+/-- the upgrade does not touch the version -/
+theorem readDescription_false_ver (gs : List (String × GroupFile)) (name : String) :
+    (readDescription gs name false).map (fun o => o.2.1.ver) = (getFile gs name false).map (fun o => o.2.1.ver) := by
+  rw [readDescription_false]
+  cases getFile gs name false <;> rfl
 
 /-- **C18, compare-and-swap.**  A conditional second phase that succeeds presented exactly the
 current tag of the object it replaces: an update or delete carrying tag `t` finds version `t`,
@@ -189,7 +197,7 @@ theorem C18_cas (st st' : State) (op : WOp) (e : Option Nat) (he : op.etag = som
       · simp at h
       · next hne =>
         simp only [WOp.cur, getDescriptionTag]
-        rw [readDescription_false] at hne
+        rw [readDescription_false_ver] at hne
         simpa using hne
   | delDesc n e' =>
     simp only [WOp.etag, Option.some.injEq] at he; subst he
@@ -244,10 +252,18 @@ def Past (st : State) (k : String) (t : Nat) : Prop :=
   WF st ∧ t ≤ st.ctr ∧ ∀ f, lookup k st.groups = some f → t < f.ver
 
 theorem readDescription_false_key (gs : List (String × GroupFile)) (name k : String) (f : GroupFile) (s : Bool)
-    (h : readDescription gs name false = some (k, f, s)) : k = fileKey name ∧ lookup (fileKey name) gs = some f := by
+    (h : readDescription gs name false = some (k, f, s)) :
+    k = fileKey name ∧ ∃ f0, lookup (fileKey name) gs = some f0 ∧ f0.ver = f.ver := by
   rw [readDescription_false] at h
-  obtain ⟨h1, _, h3⟩ := getFile_false gs name k f s h
-  exact ⟨h1, h3⟩
+  cases hg : getFile gs name false with
+  | none => simp [hg] at h
+  | some o =>
+    obtain ⟨k0, f0, s0⟩ := o
+    obtain ⟨h1, _, h3⟩ := getFile_false gs name k0 f0 s0 hg
+    simp [hg] at h
+    obtain ⟨hk, hf, _⟩ := h
+    subst hk; subst hf
+    exact ⟨h1, f0, h3, rfl⟩
 
 /-- a successful second phase writes a fresh version of the file it addresses, or removes it -/
 theorem run_effect (st st' : State) (op : WOp) (h : op.run st = .ok st') :
@@ -402,19 +418,19 @@ theorem cur_some (st : State) (op : WOp) (t : Nat) (h : op.cur st = some t) :
     simp only [WOp.cur, userTag] at h
     split at h
     · next k f s hr =>
-      obtain ⟨_, hl⟩ := readDescription_false_key _ _ _ _ _ hr
+      obtain ⟨_, f0, hl, hv⟩ := readDescription_false_key _ _ _ _ _ hr
       cases hu : f.desc.getUser w with
       | none => simp [hu] at h
-      | some u' => simp [hu] at h; exact ⟨f, hl, h⟩
+      | some u' => simp [hu] at h; exact ⟨f0, hl, hv.trans h⟩
     · simp at h
   | delUser g w e =>
     simp only [WOp.cur, userTag] at h
     split at h
     · next k f s hr =>
-      obtain ⟨_, hl⟩ := readDescription_false_key _ _ _ _ _ hr
+      obtain ⟨_, f0, hl, hv⟩ := readDescription_false_key _ _ _ _ _ hr
       cases hu : f.desc.getUser w with
       | none => simp [hu] at h
-      | some u' => simp [hu] at h; exact ⟨f, hl, h⟩
+      | some u' => simp [hu] at h; exact ⟨f0, hl, hv.trans h⟩
     · simp at h
   | setPw g w pw => simp [WOp.cur] at h
   | setKeys g k => simp [WOp.cur] at h
@@ -693,9 +709,9 @@ theorem pre_304 (r : Request) (cur : Option Nat) :
 (201/204) carried an `If-Match` (if any) naming the version it replaced, and an `If-None-Match`
 (if any) naming neither that version nor, with `*`, any version: creation with
 `If-None-Match: *` succeeds only if the definition did not exist. -/
-theorem C18_http_group_write (st st' : State) (r : Request) (g : String) (resp : Resp)
+theorem C18_http_group_write (fx : Fixes) (st st' : State) (r : Request) (g : String) (resp : Resp)
     (hm : r.method = .PUT ∨ r.method = .DELETE)
-    (h : actGroup st r g = (.resp resp, st')) (hok : resp.status = 201 ∨ resp.status = 204) :
+    (h : actGroup fx st r g = (.resp resp, st')) (hok : resp.status = 201 ∨ resp.status = 204) :
     (r.ifMatch ≠ [] → Names (getDescriptionTag st g) r.ifMatch) ∧
     (r.ifNoneMatch ≠ [] → ¬ Names (getDescriptionTag st g) r.ifNoneMatch) := by
   unfold actGroup at h
@@ -739,9 +755,9 @@ theorem C18_http_group_write (st st' : State) (r : Request) (g : String) (resp :
 /-- **C18 at the HTTP level, reads.**  A GET/HEAD of an existing group definition is answered 304
 exactly when `If-None-Match` names the current version (and `If-Match`, if present, does too);
 the tag served is the current version. -/
-theorem C18_http_group_read (st : State) (r : Request) (g k : String) (f : GroupFile)
+theorem C18_http_group_read (fx : Fixes) (st : State) (r : Request) (g k : String) (f : GroupFile)
     (hm : r.method = .GET ∨ r.method = .HEAD) (hd : getDescription st g = some (k, f, false)) :
-    ∃ resp, actGroup st r g = (.resp resp, st) ∧
+    ∃ resp, actGroup fx st r g = (.resp resp, st) ∧
       (resp.status = 200 ∨ resp.status = 304 ∨ resp.status = 412) ∧ resp.etag = some f.ver ∧
       (resp.status = 304 ↔
         (r.ifMatch = [] ∨ Names (some f.ver) r.ifMatch) ∧ r.ifNoneMatch ≠ [] ∧ Names (some f.ver) r.ifNoneMatch) := by
